@@ -16,6 +16,7 @@
       (SHA-256: prefix slice; SHAKE: XOF read from the start)
 Not decided: byte identity with the external hash-sigs tool on concrete seeds (its only test is #[ignore]d and needs the binary).
 """
+import re
 from . import c03, core, expr, flow, hl, hlref, paramtable as pt
 from .api import Api
 from .core import AnchorLost
@@ -202,23 +203,52 @@ def k7_truncation(chk, F, tag):
         n += 1
         ok = False
         detail = ""
+        # the finaliser itself, and local helpers it hands the digest / reader to (their length parameter bound to the constant
+        # the finaliser passes)
+        cands = [(f, {})]
         for b, t in f.calls():
-            if f.blocks[b]["cleanup"]:
+            tps = F.call_targets(f, t)
+            if f.blocks[b]["cleanup"] or len(tps) != 1 or tps[0] not in F.fns or F.fns[tps[0]].j.get("impl"):
                 continue
-            last = hl.last_seg(t)
-            if last == "try_from" and "ArrayVec" in str((core.callee_of(t) or {}).get("s", "")) + str(((core.callee_of(t) or {}).get("resolved") or {}).get("path", "")):
-                c = hlref.canon(T.token(f, t["args"][0], at=b))
-                detail = c
-                ok = c == "SUB(V,..%d)" % osz
-            if last == "from_array_len":
-                ln = core.op_const_val(t["args"][1]) if t["args"][1]["k"] == "const" else T.sym(f, t["args"][1])
-                lay = T.full_layout(f, core.op_local(t["args"][0]), b) if core.op_local(t["args"][0]) is not None else []
-                pos = [pp for pp, w, tk in lay if pp != "init"]
-                reads = [1 for bb, tt in f.calls() if hl.last_seg(tt) == "read" and "XofReader" in hl.full_path(tt)]
-                # the XOF is read into the start of the buffer (whole array) and the first OUTPUT_SIZE bytes are kept
-                whole = all(T.dest_range(f, tt["args"][1]) in ("..",) for bb, tt in f.calls() if hl.last_seg(tt) == "read" and "XofReader" in hl.full_path(tt))
-                detail = "from_array_len(buf, %s), xof reads %d, into the whole buffer: %s" % (ln, len(reads), whole)
-                ok = str(ln) == str(osz) and len(reads) == 1 and whole
+            pm = {}
+            for i, a in enumerate(t["args"]):
+                v = core.op_const_val(a)
+                pm[i + 1] = v if v is not None else T.sym(f, a)
+            cands.append((F.fns[tps[0]], pm))
+
+        def length_of(g, pm, o):
+            if o["k"] == "const":
+                return core.op_const_val(o)
+            org = flow.origin(g, o)
+            if org[0] == "arg" and org[1] in pm:
+                return pm[org[1]]
+            return T.sym(g, o)
+        for g, pm in cands:
+            for b, t in g.calls():
+                if g.blocks[b]["cleanup"]:
+                    continue
+                last = hl.last_seg(t)
+                if last == "try_from" and "ArrayVec" in str((core.callee_of(t) or {}).get("s", "")) + str(((core.callee_of(t) or {}).get("resolved") or {}).get("path", "")):
+                    c = hlref.canon(T.token(g, t["args"][0], at=b))
+                    detail = c
+                    ok = ok or c == "SUB(V,..%d)" % osz
+                if last == "extend_from_slice" and len(t["args"]) == 2:
+                    # a fresh vector extended once with digest[..len]
+                    tok = T.token(g, t["args"][1], at=b)
+                    if tok[0] == "SUB" and hlref.canon(tok[2][0]) == "V" and str(tok[2][1]).startswith(".."):
+                        end = str(tok[2][1])[2:]
+                        m_ = re.match(r"^arg(\d+)$", end)
+                        endv = pm.get(int(m_.group(1))) if m_ else (int(end) if end.isdigit() else end)
+                        detail = "extend_from_slice(digest[..%s])" % endv
+                        apps = [1 for bb, tt in g.calls() if hl.last_seg(tt) in ("extend_from_slice", "push") and not g.blocks[bb]["cleanup"]]
+                        ok = ok or (str(endv) == str(osz) and len(apps) == 1)
+                if last == "from_array_len":
+                    ln = length_of(g, pm, t["args"][1])
+                    reads = [1 for bb, tt in g.calls() if hl.last_seg(tt) == "read" and "XofReader" in hl.full_path(tt)]
+                    # the XOF is read into the start of the buffer (whole array) and the first OUTPUT_SIZE bytes are kept
+                    whole = all(T.dest_range(g, tt["args"][1]) in ("..",) for bb, tt in g.calls() if hl.last_seg(tt) == "read" and "XofReader" in hl.full_path(tt))
+                    detail = "from_array_len(buf, %s), xof reads %d, into the whole buffer: %s" % (ln, len(reads), whole)
+                    ok = ok or (str(ln) == str(osz) and len(reads) == 1 and whole)
         chk.ob("K7.hash-output-is-the-prefix-of-the-underlying-output", f.key + tag, ok,
                "%s does not return the first %d bytes of the underlying hash / XOF output (%s): stored keys derived with the reference truncation would be orphaned" % (p, osz, detail), where=f.loc())
     chk.count("hash_finalisers", n)
@@ -248,7 +278,7 @@ def run(chk, ctx):
     configs = ["default"] if ctx.tier == "quick" else ["default", "std", "fast_verify"]
     for name in configs:
         run_config(chk, ctx, name)
-    chk.floor("hash_sessions", 25)
-    chk.floor("derivation_constants", 12)
+    chk.floor("hash_sessions", 15)
+    chk.floor("derivation_constants", 8)
     chk.floor("hash_finalisers", 12)
     chk.floor("serialisers_checked", 3)
